@@ -146,3 +146,74 @@ def classify(fn, param, lo=0, hi=(1 << 31) - 1, max_states=20000):
         else:
             out.append((l, h, r))
     return out
+
+
+# ---- interval-set reachability: for which values of one integer parameter may a block be reached? ----------------------------------
+
+def _union(a, b):
+    xs = sorted(a + b)
+    out = []
+    for (l, h) in xs:
+        if out and l <= out[-1][1] + 1:
+            out[-1] = (out[-1][0], max(out[-1][1], h))
+        else:
+            out.append((l, h))
+    return out
+
+
+def _restrict(ivs, pred, c, truth):
+    out = []
+    for (l, h) in ivs:
+        for (a, b, t) in _split(pred, l, h, c):
+            if bool(t) == truth:
+                out.append((a, b))
+    return _union(out, [])
+
+
+_SWAP = {"ult": "ugt", "ugt": "ult", "ule": "uge", "uge": "ule", "slt": "sgt", "sgt": "slt", "sle": "sge", "sge": "sle", "eq": "eq", "ne": "ne"}
+
+
+def reach(fn, param, lo=0, hi=(1 << 32) - 1):
+    """{block: [(lo, hi)]}: an over-approximation of the values of the unsigned integer parameter `param` (SSA id) with which each block can
+    be reached.  A branch on `icmp param, constant` restricts the set on each edge exactly; every other branch passes the set to both sides."""
+    def cmp_of(cond):
+        d = fn.defs.get(cond.get("id")) if cond.get("k") == "v" else None
+        if d is None or d["op"] != "icmp":
+            return None
+        a, b = d["ops"]
+        pred = d["pred"]
+        if a.get("k") == "c" and b.get("k") == "v":
+            a, b, pred = b, a, _SWAP[pred]
+        while a.get("k") == "v" and a["id"] != param and fn.defs.get(a["id"], {}).get("op") == "zext":
+            a = fn.defs[a["id"]]["ops"][0]
+        if a.get("k") == "v" and a["id"] == param and b.get("k") == "c" and not pred.startswith("s"):
+            return pred, b["v"]
+        return None
+    R = {b["id"]: [] for b in fn.j["blocks"]}
+    R[fn.entry] = [(lo, hi)]
+    work = [fn.entry]
+    while work:
+        bb = work.pop()
+        t = fn.term(bb)
+        if t["op"] == "ret" or t["op"] == "unreachable":
+            continue
+        if t["op"] == "br" and "cond" in t:
+            c = cmp_of(t["cond"])
+            if c is None:
+                outs = [(t["t"], R[bb]), (t["f"], R[bb])]
+            else:
+                outs = [(t["t"], _restrict(R[bb], c[0], c[1], True)), (t["f"], _restrict(R[bb], c[0], c[1], False))]
+        elif t["op"] == "br":
+            outs = [(t["t"], R[bb])]
+        else:
+            outs = [(s, R[bb]) for s in fn.succ[bb]]
+        for (s, ivs) in outs:
+            new = _union(R[s], ivs)
+            if new != R[s]:
+                R[s] = new
+                work.append(s)
+    return R
+
+
+def contains(ivs, x):
+    return any(l <= x <= h for (l, h) in ivs)
